@@ -115,6 +115,14 @@ func (r *seqRun) existingName(h *StoreH) (string, bool) {
 }
 
 func (r *seqRun) anyKey(name string) []byte {
+	if r.cfg.big && r.w.rng.Intn(4) == 0 {
+		// the longest legal key (65535 bytes) takes part in every kind of call
+		for _, k := range r.w.U.Keys {
+			if len(k) == 0xffff {
+				return k
+			}
+		}
+	}
 	return r.w.U.Keys[r.w.rng.Intn(len(r.w.U.Keys))]
 }
 
